@@ -6,8 +6,8 @@ VERIF = os.path.dirname(os.path.dirname(os.path.abspath(__file__)))
 
 CHECKS = {
     "C10": dict(engine="calltree", level="exploration", design="4/C10, 3.5",
-                technique="deterministic simulation: generated call trees re-run over drawn memoized subsets (forget / restart / evict histories) with every stored provenance record compared to a reference model",
-                text="Generated call DAGs with repeated, batched, mapped, keyword-presented, ignore_result, failing-and-caught and failing-and-propagating sub-calls and file/custom resource handles. The root is run on an empty store, then up to four more times after forgetting the root plus a drawn subset of the calls beneath it (the rest stays memoized, including memoized exceptions), optionally after a restart or cache flush, singly or inside a batch. After every run the stored record of every call that must exist (direct invocations in order with argument hashes, resource handles, transitive function-version set, context, result type) must equal the model's, hence be identical for every memoized subset.",
+                technique="deterministic simulation: generated call trees re-run over drawn memoized subsets (forget / restart / evict histories), and concurrent callers under a seeded thread scheduler, with every stored provenance record compared to a reference model",
+                text="Generated call DAGs with repeated, batched, mapped, keyword-presented, ignore_result, failing-and-caught and failing-and-propagating sub-calls and file/custom resource handles. The root is run on an empty store, then up to four more times after forgetting the root plus a drawn subset of the calls beneath it (the rest stays memoized, including memoized exceptions), optionally after a restart or cache flush, singly or inside a batch. After every run the stored record of every call that must exist (direct invocations in order with argument hashes, resource handles, transitive function-version set, context, result type) must equal the model's, hence be identical for every memoized subset. In addition 2-3 threads run call scripts over a small DAG under the seeded scheduler of engine sched (sampled schedules plus single-pre-emption sweeps), so that sub-calls are also 'found in the store' between a caller's batch pre-check and its look-up under the per-call mutex; afterwards every stored record is compared with the model.",
                 note="Sampling of trees and memoized subsets. Invocations are compared by (function, argument hash)."),
     "C15": dict(engine="calltree", level="exploration", design="4/C15, 3.5",
                 technique="deterministic simulation: twin worlds from the same pre-state (batch vs. element-wise) compared slot by slot, store by store and execution by execution",
@@ -47,7 +47,7 @@ CHECKS = {
                 note="Sampling; reference graph and expected outcome come from ~80 lines of model code in sim/progen.py."),
     "C09": dict(engine="sched", level="exploration", design="4/C09, 2.5",
                 technique="deterministic simulation: seeded scheduler over real threads (baton passing, settrace pre-emption points, cooperative lock wrapper); random, PCT and single-pre-emption-sweep schedules",
-                text="2-3 real threads run call scripts (single calls, call_batch, calls under context arguments, ignore_result; equal and different keys; a nested DAG with functions that raise, catch a callee's exception or return partitions, some defined before their callees; optionally a stale version cache) on cold store / warm store + cold cache / warm cache over filesystem, filesystem + 5 KiB cache and memory backends. A seeded scheduler decides at every call event in twosigma.memento and every line of the runner, call-stack and storage modules which thread runs next (random pre-emption, PCT d<=3, and systematic single-pre-emption sweeps). Each schedule must give every caller the sequential value, let no exception escape, give every caller of a raising function that function's own exception, run each not-yet-memoized distinct call's body exactly once per (function, argument, context) (zero when warm), leave usage counter = sum of resident sizes <= budget, queue = key set without duplicates, correct resident values, and finish without deadlock within the step cap.",
+                text="2-3 real threads run call scripts (single calls, call_batch, calls under context arguments, ignore_result; equal and different keys; a nested DAG with functions that raise, catch a callee's exception or return partitions, some defined before their callees; optionally a stale version cache) on cold store / warm store + cold cache / warm cache over filesystem, filesystem + 5 KiB cache and memory backends. A seeded scheduler decides at every call event in twosigma.memento and every line of the runner, call-stack and storage modules which thread runs next (random pre-emption, PCT d<=3, and systematic single-pre-emption sweeps). Each schedule must give every caller the sequential value, let no exception escape, give every caller of a raising function that function's own exception, run each not-yet-memoized distinct call's body exactly once per (function, argument, context) (zero when warm), leave usage counter = sum of resident sizes <= budget, queue = key set without duplicates, correct resident values, and finish without deadlock within the step cap; afterwards a fresh process over the same store repeats every call and must get the correct value without executing anything (also for calls that wrote one shared override key). Dedicated scenarios: a call fanning out over 1300 distinct calls while a second caller arrives (pre-emption hints placed by the workload), two writers of one override key, a batch pre-check racing an in-flight memoization.",
                 note="Sampling of schedules (systematic only for one pre-emption on five base scenarios). Line-level, not bytecode-level, pre-emption. User function bodies are atomic."),
     "C05": dict(engine="store", level="exploration", design="4/C05, 3.2",
                 technique="deterministic simulation: seeded operation histories on three backends in lock-step vs. a dictionary reference model, restarts as operations",
